@@ -404,6 +404,10 @@ func (run *Run) RaceStep(emit func(lib.Finding)) {
 		run.raceUnavailable(emit, "the scratch module for go test -race could not be set up: "+err.Error())
 		return
 	}
+	if err := copyDir(filepath.Join("reuse", "twin")); err != nil {
+		run.raceUnavailable(emit, "the scratch module for go test -race could not be set up: "+err.Error())
+		return
+	}
 	gomod := "module verif/harness\n\ngo 1.23\n\nrequire github.com/ohler55/ojg v0.0.0\n\nreplace github.com/ohler55/ojg => " + run.Repo + "\n"
 	if err := os.WriteFile(filepath.Join(dir, "go.mod"), []byte(gomod), 0o644); err != nil {
 		run.raceUnavailable(emit, "the scratch module for go test -race could not be set up: "+err.Error())
@@ -447,7 +451,8 @@ func (run *Run) RaceStep(emit func(lib.Finding)) {
 	nRounds := 6
 	fmt.Sscanf(rounds, "%d", &nRounds)
 	rep.Notes = append(rep.Notes, fmt.Sprintf("race_step: ran — go test -race in %.1fs: TestRaceStress %d rounds x 8 goroutines x 30 calls (%d ops), "+
-		"TestRaceColdCaches %d rounds x 16 goroutines, TestRaceSenBytes 64 goroutines x 600 calls", secs, nRounds, nRounds*8*30, nRounds*3))
+		"TestRaceColdCaches %d rounds x 16 goroutines, TestRaceSenBytes 64 goroutines x 600 calls, TestRaceInventory %d objects x 8 goroutines x 2 passes over every entry point",
+		secs, nRounds, nRounds*8*30, nRounds*3, len(Inventory())))
 	rep.Count("c08.race_step.ran", 1)
 	rep.Count("c08.race_step.stress_goroutines", 8)
 	rep.Count("c08.race_step.stress_ops", int64(nRounds*8*30))
@@ -484,23 +489,73 @@ func (run *Run) RaceStep(emit func(lib.Finding)) {
 			}
 			what = fmt.Sprintf("Go runtime fatal error in %s: %s; first frames: %s\n%s", name, fatal[1], strings.Join(frames, " / "), blk)
 		} else if races > 0 {
-			i := strings.Index(body, "WARNING: DATA RACE")
-			blk := body[i:]
-			if j := strings.Index(blk, "=================="); j > 0 {
-				blk = blk[:j]
+			// every report of the test, one finding per distinct first frame (a first report that is a known
+			// deviation must not hide another race)
+			blocks := strings.Split(body, "WARNING: DATA RACE")[1:]
+			seenClass := map[string]bool{}
+			for _, blk := range blocks {
+				if j := strings.Index(blk, "=================="); j > 0 {
+					blk = blk[:j]
+				}
+				stacks := blk
+				if j := strings.Index(stacks, "\nGoroutine "); j > 0 {
+					stacks = stacks[:j] // the two access stacks, without the creation stacks
+				}
+				var frames []string
+				for _, m := range raceFrame.FindAllStringSubmatch(stacks, -1) {
+					frames = append(frames, m[1]+"."+m[2])
+				}
+				// the two accesses: every WRITE must come from the lazy compile (asm.(*Fn).compile below
+				// asm.evalValue: the slot of the shared list, or an object built there and published through it),
+				// and both accesses must lie inside an executing plan
+				lazyCompile, writes := true, 0
+				for _, acc := range strings.Split(strings.TrimSpace(stacks), "\n\n") {
+					head := acc
+					if j := strings.IndexByte(head, '\n'); j > 0 {
+						head = head[:j]
+					}
+					if !strings.Contains(acc, "asm.(*Plan).Execute(") {
+						lazyCompile = false
+					}
+					if strings.Contains(head, "rite at") || strings.Contains(head, "rite of") {
+						writes++
+						if !strings.Contains(acc, "asm.(*Fn).compile(") || !strings.Contains(acc, "asm.evalValue(") {
+							lazyCompile = false
+						}
+					}
+				}
+				if writes == 0 {
+					lazyCompile = false
+				}
+				cls := "race:" + name
+				if len(frames) > 0 {
+					cls += ":" + frames[0]
+				}
+				if seenClass[cls] {
+					continue
+				}
+				seenClass[cls] = true
+				show := frames
+				if len(show) > 6 {
+					show = show[:6]
+				}
+				w := fmt.Sprintf("%d data race report(s) in %s; this one: %s", races, name, strings.Join(show, " / "))
+				if len(blk) > 1500 {
+					blk = blk[:1500]
+				}
+				fd := lib.Finding{Kind: "violation", Class: cls, What: w + "\n" + blk,
+					Replay: map[string]any{"scenario": "race", "test": name, "seed": run.Seed, "rounds": rounds,
+						"cmd": "cd <scratch module with harness/lib and harness/reuse> && CGO_ENABLED=1 go test -race -run '^" + name + "$' ./reuse"}}
+				// finding C08-asm-plan-lazy-compile, decided per report (predicate above); any other race in an
+				// executing plan is a violation
+				if name == "TestRaceInventoryPlan" && lazyCompile && lib.HasKnown(run.Known, PlanLazyCompileID) {
+					fd.Kind, fd.KnownID = "known", PlanLazyCompileID
+				}
+				emit(fd)
 			}
-			var frames []string
-			for _, m := range raceFrame.FindAllStringSubmatch(blk, 6) {
-				frames = append(frames, m[1]+"."+m[2])
+			if !failed || len(seenClass) > 0 {
+				continue
 			}
-			if len(frames) > 0 {
-				class += ":" + frames[0]
-			}
-			what = fmt.Sprintf("%d data race report(s) in %s; first: %s", races, name, strings.Join(frames, " / "))
-			if len(blk) > 1500 {
-				blk = blk[:1500]
-			}
-			what += "\n" + blk
 		} else {
 			i := strings.Index(body, "--- FAIL")
 			if i < 0 {
@@ -565,6 +620,16 @@ func (run *Run) RunC08Child() {
 		rep.Count("c08.stress.rounds", 1)
 		rep.Count("c08.stress.calls", int64(ev))
 	}
+	// the shared-object inventory, all callers at once
+	invReps := 4
+	if run.Tier == "thorough" {
+		invReps = 40
+	}
+	for r := 0; r < invReps; r++ {
+		ev := InventoryStress(run.Seed+uint64(r)*977, goroutines, 3, nil, run.Known, emit)
+		rep.AddEval(int64(ev), int64(ev))
+		rep.Count("c08.inventory.stress_calls", int64(ev))
+	}
 	rep.Count("c08.stress.goroutines", int64(goroutines))
 	rep.Notes = append(rep.Notes, fmt.Sprintf("stress: %d rounds x %d goroutines x %d calls, each compared with the same list run alone", rounds, goroutines, calls))
 	rep.Sample(map[string]any{"round": 0, "goroutine": 0, "first_calls": GenLists(run.Seed, 0, goroutines, 3, true)[0]})
@@ -575,7 +640,7 @@ var fatalRe = regexp.MustCompile(`(?m)^fatal error: (.*)$`)
 // RunC08 is the property run: the child with the stress, then the race detector sub-step.
 func (run *Run) RunC08(self, knownPath string) {
 	rep := run.Rep
-	rep.Rule = "C08 (supporting evidence for the protocol proof): N goroutines run generated call lists (pooled package-level functions, shared jp.Expr / Script / options / struct types, " +
+	rep.Rule = "C08 (supporting evidence for the protocol proof): shared-object inventory — every read-only entry point of every kind of object callers may share (jp.Expr with $/@/nested filters, jp.Script, jp.Filter, asm.Plan, alt.Recomposer with pre-registered twins and composer functions, ojg.Options, ojg.Converter), every ordered pair on different caller-owned data vs the call on an unused object, and all at once; N goroutines run generated call lists (pooled package-level functions, shared jp.Expr / Script / options / struct types, " +
 		"private instances) at the same time; every result is compared with the same list run alone, every value the package-level functions returned is re-inspected afterwards; " +
 		"the two-goroutine schedule of the Lean witness is replayed per pooled API; the same scenarios run under the Go race detector"
 	emit := func(fd lib.Finding) { rep.Add(fd) }
@@ -583,6 +648,8 @@ func (run *Run) RunC08(self, knownPath string) {
 	n := run.RegistryClosure(emit)
 	rep.AddEval(int64(n), int64(n))
 	n = run.SharedUntouched(emit)
+	rep.AddEval(int64(n), int64(n))
+	n = run.SharedInventory(emit)
 	rep.AddEval(int64(n), int64(n))
 	n = run.OverlapAfterFailure(emit)
 	rep.AddEval(int64(n), int64(n))
@@ -678,6 +745,12 @@ func (run *Run) ReplayC08(path string) error {
 		run.RegistryClosure(emit)
 	case "shared-untouched":
 		run.SharedUntouched(emit)
+	case "shared-inventory":
+		run.SharedInventory(emit)
+	case "shared-inventory-stress":
+		for k := 0; k < 20; k++ {
+			InventoryStress(fd.Replay.Seed+uint64(k), 16, 3, nil, run.Known, emit)
+		}
 	case "overlap-after-failure":
 		run.OverlapAfterFailure(emit)
 	case "race":
